@@ -24,7 +24,7 @@ def cases(ctx):
                 for nc in (False, True):
                     yield {"kind": "msm", "xs": list(x), "n": 3, "tau": tau, "noncorr": nc}
     # the same exhaustive space through get_all_tau_transition_matrices on ONE object per trajectory (both modes)
-    for L in range(0, Lmax + 1):
+    for L in range(0, min(Lmax, 6) + 1):
         for x in itertools.product(alphabet, repeat=L):
             yield {"kind": "msm_hist", "xs": list(x), "n": 3,
                    "calls": [{"f": "all", "taus": [1, 2, 3, 7], "noncorr": False},
